@@ -81,16 +81,23 @@ def detect(d, props):
     rc, out = sh(f"git -C /repo apply {os.path.join(d, 'patch.diff')}")
     assert rc == 0, out
     det = meta.setdefault("detection", {})
+    env = dict(os.environ, CARGO_NET_OFFLINE="true")
+    env.pop("CARGO_TARGET_DIR", None)
+
+    def one(p):
+        t = time.time()
+        pr = subprocess.run(f"./check {p} quick", shell=True, cwd=VERIF, env=env, stdout=subprocess.PIPE, stderr=subprocess.STDOUT, text=True, timeout=3000)
+        rc, out = pr.returncode, pr.stdout
+        lines = [l for l in out.split("\n") if l.startswith(("VIOLATION", "KNOWN-FINDING"))]
+        return p, {"exit": rc, "lines": lines, "wall_s": round(time.time() - t, 1)}
     try:
-        for p in props:
-            t = time.time()
-            env = dict(os.environ, CARGO_NET_OFFLINE="true")
-            env.pop("CARGO_TARGET_DIR", None)
-            pr = subprocess.run(f"./check {p} quick", shell=True, cwd=VERIF, env=env, stdout=subprocess.PIPE, stderr=subprocess.STDOUT, text=True, timeout=3000)
-            rc, out = pr.returncode, pr.stdout
-            lines = [l for l in out.split("\n") if l.startswith(("VIOLATION", "KNOWN-FINDING"))]
-            det[p] = {"exit": rc, "lines": lines, "wall_s": round(time.time() - t, 1)}
-            print(name, p, rc, lines[:2], flush=True)
+        # build once (harness, regenerated tables, whatever of the Coq development still compiles, runner), then the checks in parallel
+        subprocess.run("./setup.sh", shell=True, cwd=VERIF, env=env, stdout=subprocess.PIPE, stderr=subprocess.STDOUT, text=True, timeout=3000)
+        from concurrent.futures import ThreadPoolExecutor
+        with ThreadPoolExecutor(max_workers=4) as ex:
+            for p, r in ex.map(one, props):
+                det[p] = r
+                print(name, p, r["exit"], r["lines"][:2], flush=True)
     finally:
         sh("git -C /repo checkout -- .")
     meta["caught_by"] = sorted(p for p, r in det.items() if r["exit"] == 1 and any(l.startswith("VIOLATION") and "no-failing-input-found" not in l for l in r["lines"]))
